@@ -9,15 +9,22 @@ import ChessVerif.Proofs.SearchGo
 namespace ChessVerif
 namespace Search
 
-variable {σ π : Type}
+variable {σ π : Type} [PsInv σ]
 
+omit [PsInv σ] in
 theorem flag_anomaly (s : St σ) (a : Bool) : (s.flag a).anomaly = (s.anomaly || a) := rfl
+omit [PsInv σ] in
 theorem flag_aborted (s : St σ) (a : Bool) : (s.flag a).aborted = s.aborted := rfl
+omit [PsInv σ] in
 theorem setPs_aborted (s : St σ) (ps : σ) : (s.setPs ps).aborted = s.aborted := rfl
+omit [PsInv σ] in
 theorem setPs_anomaly (s : St σ) (ps : σ) : (s.setPs ps).anomaly = s.anomaly := rfl
+omit [PsInv σ] in
 theorem popFrame_aborted (s : St σ) : s.popFrame.aborted = s.aborted := rfl
+omit [PsInv σ] in
 theorem popFrame_anomaly (s : St σ) : s.popFrame.anomaly = s.anomaly := rfl
 
+omit [PsInv σ] in
 /-- `abAfter` at ply 0: a return is an abort or a fail-high; otherwise `failLow` is cleared only
     together with an insertion into row 0. -/
 theorem abAfter_root (c : Comp σ π) (L : Limits) (x : ABCtx) (hx : x.ply = 0) (m : Move) (r : Board.Reverse)
@@ -70,7 +77,8 @@ def RootLoopPost (K : Keys) (b : Board) (beta : Score) (o : Flow (ABLoop π) × 
 
 theorem abLoop_root (c : Comp σ π) (L : Limits) {Good : Board → Prop} (hl : Laws c Good) (child : Child σ)
     (hc : ABSpec c L Good child) (x : ABCtx) (hx : x.ply = 0) (hmv : Move) :
-    ∀ (n : Nat) (l : ABLoop π) (s : St σ), Good s.board → Reach c s.board hmv l.pick l.yielded →
+    ∀ (n : Nat) (l : ABLoop π) (s : St σ), Good s.board → NodeOK s → HashOK c s.board hmv →
+      Reach c s.board hmv l.pick l.yielded →
       (l.hasLegal = false → ∀ m, m ∈ l.yielded → m ∉ MoveGen.playable c.keys s.board) →
       (l.failLow = false → s.pv.row 0 ≠ []) →
       RootLoopPost c.keys s.board x.beta (abLoop c L child x n l s) := by
@@ -78,45 +86,49 @@ theorem abLoop_root (c : Comp σ π) (L : Limits) {Good : Board → Prop} (hl : 
   have h1 : x.ply < 63 := by rw [hx]; decide
   intro n
   induction n with
-  | zero => intro l s _ _ _ _; exact Or.inl rfl
+  | zero => intro l s _ _ _ _ _ _; exact Or.inl rfl
   | succ n ih =>
-    intro l s hg hreach hyl hfl
+    intro l s hg hn hhash hreach hyl hfl
     simp only [abLoop]
     split
     · next hnone =>
       refine ⟨fun hh => ?_, hfl⟩
-      have hall := hl.pick_complete _ _ _ _ _ _ hg hreach hnone
+      have hall := hl.pick_complete _ _ _ _ _ _ hg hhash hreach hn.1 hnone
       exact playable_nil_of (fun m hm => hyl hh m (hall m hm))
     · next m pk hpick =>
-      have hmem : m ∈ MoveGen.gen s.board := hl.pick_mem _ _ _ _ _ _ _ _ hg hreach hpick
-      have hreach' : Reach c s.board hmv pk (m :: l.yielded) := Reach.next hreach hpick
+      have hmem : m ∈ MoveGen.gen s.board := hl.pick_mem _ _ _ _ _ _ _ _ hg hhash hreach hn.1 hpick
+      have hreach' : Reach c s.board hmv pk (m :: l.yielded) := Reach.next hreach hn.1 hpick
       have hu := hl.undo_make s.board m hg hmem
       split
       · next hchk =>
         rw [hu, setBoard_self]
-        refine ih _ s hg hreach' (fun hh m' hm' => ?_) hfl
+        refine ih _ s hg hn hhash hreach' (fun hh m' hm' => ?_) hfl
         rcases List.mem_cons.1 hm' with e | e
         · subst e; intro hp; have := (mem_playable.1 hp).2; simp [this] at hchk
         · exact hyl hh m' e
       · next hchk =>
         have hchk' : (s.board.makeMove c.keys m).1.inCheck s.board.stm = false := by simpa using hchk
-        have hg' := hl.good_make s.board m hg hmem hchk'
+        have hg' := hl.good_make s.board m hg hn.2 hmem hchk'
         generalize hl2 : abEnter { l with pick := pk, yielded := m :: l.yielded } (s.board.pieceAt (s.board.captureSq m)) m = l2
         have hl2legal : l2.hasLegal = true := by rw [← hl2]; rfl
         have hl2fl : l2.failLow = l.failLow := by rw [← hl2]; rfl
         have hsm := searchMove_spec c L child hc x l2 (nextNodeType x.nt l2.moveCnt)
           ((s.setBoard (s.board.makeMove c.keys m).1).push
-            { piece := s.board.pieceAt (Move.src m), to := Move.dst m, score := x.staticEval }) hg' h0 h1
+            { piece := s.board.pieceAt (Move.src m), to := Move.dst m, score := x.staticEval }) hg' hn.1 h0 h1
         simp only at hsm
         generalize searchMove c child x l2 (nextNodeType x.nt l2.moveCnt)
           ((s.setBoard (s.board.makeMove c.keys m).1).push
             { piece := s.board.pieceAt (Move.src m), to := Move.dst m, score := x.staticEval }) = r at hsm ⊢
-        have ha := abAfter_spec c L x m (s.board.makeMove c.keys m).2 l2 r.1 r.2
+        obtain ⟨hsf, hsrows, _⟩ := hsm
+        have hub : r.2.board.undoMove m (s.board.makeMove c.keys m).2 = s.board := by
+          rw [hsf.board]; simpa using hu
+        have ha := abAfter_spec c L hl x m (s.board.makeMove c.keys m).2 l2 r.1 r.2
+          (by rw [hub]; exact hg) (by rw [hub]; exact hmem)
         have har := abAfter_root c L x hx m (s.board.makeMove c.keys m).2 l2 r.1 r.2
         simp only at ha har
         generalize abAfter c L x m (s.board.makeMove c.keys m).2 l2 r.1 r.2 = o at ha har ⊢
-        obtain ⟨hsf, hsrows, _⟩ := hsm
-        obtain ⟨_, hb1, _, _, _, hpick'⟩ := ha
+        obtain ⟨hm1, hb1, _, _, _, hpick'⟩ := ha
+        have hok' : PsInv.ok o.2.ps := hm1.ps_ok (hsf.mono.ps_ok hn.1)
         obtain ⟨hret, hcb⟩ := har
         have hboard : o.2.board = s.board := by rw [hb1, hsf.board]; simpa using hu
         have hrow0 : r.2.pv.row 0 = s.pv.row 0 := by
@@ -143,10 +155,12 @@ theorem abLoop_root (c : Comp σ π) (L : Limits) {Good : Board → Prop} (hl : 
             obtain ⟨hy, w, hw⟩ := hpick' l' (Or.inl rfl)
             rw [hboard, hy, hw, ← hl2]
             exact Reach.weight hreach'
-          have := ih l' s' (by rw [hboard]; exact hg) hr2 (fun hh => by rw [e1] at hh; cases hh) e2
+          have := ih l' s' (by rw [hboard]; exact hg) ⟨hok', by rw [hboard]; exact hn.2⟩ (by rw [hboard]; exact hhash) hr2
+            (fun hh => by rw [e1] at hh; cases hh) e2
           rw [hboard] at this
           exact this
 
+omit [PsInv σ] in
 theorem nullMove_ge (c : Comp σ π) (child : Child σ) (beta : Score) (d ply : Int) (se : Score) (s : St σ) (v : Score)
     (h : (nullMove c child beta d ply se s).1 = some v) : v ≥ beta := by
   simp only [nullMove] at h
@@ -165,7 +179,7 @@ def RootOut (K : Keys) (b : Board) (s' : St σ) : Prop :=
 
 theorem abMoves_root (c : Comp σ π) (L : Limits) {Good : Board → Prop} (hl : Laws c Good) (child : Child σ)
     (hc : ABSpec c L Good child) (alpha beta : Score) (d : Int) (nt : NodeType) (inCheck improving : Bool) (se : Score)
-    (hm : Move) (s : St σ) (hg : Good s.board) :
+    (hm : Move) (s : St σ) (hg : Good s.board) (hn : NodeOK s) (hhash : HashOK c s.board hm) :
     let o := abMoves c L child alpha beta d 0 nt inCheck improving se hm s
     o.2.aborted = false → alpha < o.1 → o.1 < beta → RootOut c.keys s.board o.2 := by
   simp only [abMoves]
@@ -174,7 +188,7 @@ theorem abMoves_root (c : Comp σ π) (L : Limits) {Good : Board → Prop} (hl :
   have hxb : x.beta = beta := by rw [← hx]
   have h := abLoop_root c L hl child hc x hxp hm ((MoveGen.gen s.board).length + 1)
     { alpha := alpha, bestMove := 0, hasLegal := false, failLow := true, maxim := -Inf - 1, moveCnt := 0, quietCnt := 0,
-      pick := c.pickInit s.board hm, yielded := [] } s.pushFrame hg Reach.init (fun _ m hm => by cases hm)
+      pick := c.pickInit s.board hm, yielded := [] } s.pushFrame hg hn hhash Reach.init (fun _ m hm => by cases hm)
       (fun hh => by cases hh)
   generalize abLoop c L child x ((MoveGen.gen s.board).length + 1)
     { alpha := alpha, bestMove := 0, hasLegal := false, failLow := true, maxim := -Inf - 1, moveCnt := 0, quietCnt := 0,
@@ -206,7 +220,8 @@ theorem abMoves_root (c : Comp σ π) (L : Limits) {Good : Board → Prop} (hl :
 
 theorem abPrune_root (c : Comp σ π) (L : Limits) {Good : Board → Prop} (hl : Laws c Good) (child : Child σ)
     (hc : ABSpec c L Good child) (alpha beta : Score) (d : Int) (nt : NodeType) (inCheck improving : Bool) (se : Score)
-    (hm : Move) (s : St σ) (hg : Good s.board) (hic : inCheck = s.board.inCheck s.board.stm) :
+    (hm : Move) (s : St σ) (hg : Good s.board) (hn : NodeOK s) (hhash : HashOK c s.board hm)
+    (hic : inCheck = s.board.inCheck s.board.stm) :
     let o := abPrune c L child alpha beta d 0 nt inCheck improving se hm s
     o.2.aborted = false → alpha < o.1 → o.1 < beta → RootOut c.keys s.board o.2 := by
   simp only [abPrune]
@@ -222,19 +237,20 @@ theorem abPrune_root (c : Comp σ π) (L : Limits) {Good : Board → Prop} (hl :
         rw [← hic]; cases inCheck
         · rfl
         · simp at hnm
-      have hn := nullMove_spec c L hl child hc beta d (Int.le_refl 0) (by decide) se s hg hchk
+      have hn' := nullMove_spec c L hl child hc beta d (Int.le_refl 0) (by decide) se s hg hn.1 hchk
       have hge := nullMove_ge c child beta d 0 se s
-      simp only at hn
-      generalize nullMove c child beta d 0 se s = nm at hn hge ⊢
+      simp only at hn'
+      generalize nullMove c child beta d 0 se s = nm at hn' hge ⊢
       split
       · next v hv => intro _ _ hlt; exact absurd hlt (Int.not_lt.2 (hge v hv))
-      · have := abMoves_root c L hl child hc alpha beta d nt inCheck improving se hm nm.2 (by rw [hn.1.board]; exact hg)
-        rw [hn.1.board] at this
+      · have := abMoves_root c L hl child hc alpha beta d nt inCheck improving se hm nm.2 (by rw [hn'.1.board]; exact hg)
+          (hn'.1.nodeOK hn) (by rw [hn'.1.board]; exact hhash)
+        rw [hn'.1.board] at this
         exact this
-    · exact abMoves_root c L hl child hc alpha beta d nt inCheck improving se hm s hg
+    · exact abMoves_root c L hl child hc alpha beta d nt inCheck improving se hm s hg hn hhash
 
 theorem abBody_root (c : Comp σ π) (L : Limits) {Good : Board → Prop} (hl : Laws c Good) (child : Child σ)
-    (hc : ABSpec c L Good child) (alpha beta : Score) (d : Int) (s : St σ) (hg : Good s.board) :
+    (hc : ABSpec c L Good child) (alpha beta : Score) (d : Int) (s : St σ) (hg : Good s.board) (hn : NodeOK s) :
     let o := abBody c L child alpha beta d 0 .pv s
     o.2.aborted = false → alpha < o.1 → o.1 < beta → RootOut c.keys s.board o.2 := by
   simp only [abBody]
@@ -244,12 +260,12 @@ theorem abBody_root (c : Comp σ π) (L : Limits) {Good : Board → Prop} (hl : 
     split at heq
     · simp at heq
     · cases heq
-  · exact abPrune_root c L hl child hc alpha beta d .pv _ _ _ _ s hg rfl
+  · exact abPrune_root c L hl child hc alpha beta d .pv _ _ _ _ s hg hn (hashOK_probe c hn.1 s.board 0) rfl
 
 /-- A ply-0 PV node searched to depth ≠ 0: un-aborted and strictly inside the window ⇒ non-empty
     row 0, or final root, or anomaly. -/
 theorem alphaBeta_root (c : Comp σ π) (L : Limits) {Good : Board → Prop} (hl : Laws c Good) (fuel : Nat)
-    (alpha beta : Score) (d : Int) (hd : d ≠ 0) (s : St σ) (hg : Good s.board) :
+    (alpha beta : Score) (d : Int) (hd : d ≠ 0) (s : St σ) (hg : Good s.board) (hok : PsInv.ok s.ps) :
     let o := alphaBeta c L fuel alpha beta d 0 .pv s
     o.2.aborted = false → alpha < o.1 → o.1 < beta → RootOut c.keys s.board o.2 := by
   cases fuel with
@@ -277,22 +293,24 @@ theorem alphaBeta_root (c : Comp σ π) (L : Limits) {Good : Board → Prop} (hl
           have : (min (0 : Int) 1) = 0 := by decide
           rw [this] at h
           omega
-      · have := abBody_root c L hl (alphaBeta c L fuel) (alphaBeta_spec c L hl fuel) alpha beta d as.2 (by rw [hb]; exact hg)
+      · next hnd =>
+        have := abBody_root c L hl (alphaBeta c L fuel) (alphaBeta_spec c L hl fuel) alpha beta d as.2 (by rw [hb]; exact hg)
+          ⟨a1.mono.ps_ok (i1.mono.ps_ok hok), fifty_lt_of_not_draw hnd⟩
         rw [hb] at this
         exact this
 
 /-- an in-window result of the aspiration loop of an iteration `idD ≠ 0`. -/
 theorem aspiration_root (c : Comp σ π) (L : Limits) {Good : Board → Prop} (hl : Laws c Good) (fuel : Nat) (idD : Int)
     (hd : idD ≠ 0) :
-    ∀ (n : Nat) (alpha beta factor : Score) (s : St σ), Good s.board →
+    ∀ (n : Nat) (alpha beta factor : Score) (s : St σ), Good s.board → PsInv.ok s.ps →
       ∀ al be sa s', aspiration c L fuel idD n alpha beta factor s = .ok al be sa s' → RootOut c.keys s.board s' := by
   intro n
   induction n with
-  | zero => intro alpha beta factor s _ al be sa s' h; simp [aspiration] at h
+  | zero => intro alpha beta factor s _ _ al be sa s' h; simp [aspiration] at h
   | succ n ih =>
-    intro alpha beta factor s hg al be sa s' h
-    have hab := alphaBeta_spec c L hl fuel alpha beta idD 0 .pv s hg (Int.le_refl 0)
-    have hroot := alphaBeta_root c L hl fuel alpha beta idD hd s hg
+    intro alpha beta factor s hg hok al be sa s' h
+    have hab := alphaBeta_spec c L hl fuel alpha beta idD 0 .pv s hg hok (Int.le_refl 0)
+    have hroot := alphaBeta_root c L hl fuel alpha beta idD hd s hg hok
     simp only [aspiration] at h
     simp only at hroot
     generalize alphaBeta c L fuel alpha beta idD 0 .pv s = r at hab hroot h
@@ -317,20 +335,23 @@ theorem aspiration_root (c : Comp σ π) (L : Limits) {Good : Board → Prop} (h
         · exact Or.inl (by rw [hap]; exact h1)
         · exact Or.inr (Or.inl h1)
         · exact Or.inr (Or.inr (haf.mono.anomaly_mono h1))
-      · have := ih _ _ _ as.2 (by rw [haf.board, hab.1.board]; exact hg) al be sa s' h
+      · have := ih _ _ _ as.2 (by rw [haf.board, hab.1.board]; exact hg) (haf.mono.ps_ok (hab.1.mono.ps_ok hok)) al be sa s' h
         rw [haf.board, hab.1.board] at this
         exact this
 
 theorem pickMove_cons (m : Move) (rest : List Move) (old : Move) : pickMove (m :: rest) old = m := rfl
 
+omit [PsInv σ] in
 theorem setPondering_board (s : St σ) (p : Bool) : (s.setPondering p).board = s.board := rfl
+omit [PsInv σ] in
 theorem setPondering_anomaly (s : St σ) (p : Bool) : (s.setPondering p).anomaly = s.anomaly := rfl
+omit [PsInv σ] in
 theorem setPondering_fuelOut (s : St σ) (p : Bool) : (s.setPondering p).fuelOut = s.fuelOut := rfl
 
 /-- `idLoop` returns the null move only on a final root (or after an anomaly / out of fuel). -/
 theorem idLoop_null (c : Comp σ π) (L : Limits) (clock : Clock) {Good : Board → Prop} (hl : Laws c Good) (fuel : Nat)
     (b : Board) (hg : Good b) (hd : 1 ≤ L.depth) :
-    ∀ (n : Nat) (idD : Int) (v : IDVars) (s : St σ), s.board = b → 0 ≤ idD → (n : Int) + idD = 64 →
+    ∀ (n : Nat) (idD : Int) (v : IDVars) (s : St σ), s.board = b → PsInv.ok s.ps → 0 ≤ idD → (n : Int) + idD = 64 →
       (2 ≤ idD → v.move ≠ 0 ∨ Final c.keys b ∨ s.anomaly = true ∨ s.fuelOut = true) →
       (idLoop c L clock fuel n idD v s).move = 0 →
         Final c.keys b ∨ (idLoop c L clock fuel n idD v s).st.anomaly = true ∨
@@ -338,7 +359,7 @@ theorem idLoop_null (c : Comp σ π) (L : Limits) (clock : Clock) {Good : Board 
   intro n
   induction n with
   | zero =>
-    intro idD v s _ _ hn hyp hmv
+    intro idD v s _ _ _ hn hyp hmv
     simp only [idLoop] at hmv ⊢
     rcases hyp (by omega) with h | h | h | h
     · exact absurd hmv h
@@ -346,7 +367,7 @@ theorem idLoop_null (c : Comp σ π) (L : Limits) (clock : Clock) {Good : Board 
     · exact Or.inr (Or.inl h)
     · exact Or.inr (Or.inr h)
   | succ n ih =>
-    intro idD v s hb h0 hn hyp
+    intro idD v s hb hps h0 hn hyp
     simp only [idLoop]
     split
     · next hcond =>
@@ -370,8 +391,8 @@ theorem idLoop_null (c : Comp σ π) (L : Limits) (clock : Clock) {Good : Board 
         apply hcond
         have e1 : decide (idD < maxPlies) = false := decide_eq_false (by unfold maxPlies; omega)
         simp [e1]
-      have hasp := aspiration_spec c L hl fuel idD fuel v.alpha v.beta 1 s (by rw [hb]; exact hg)
-      have haroot := fun (hd0 : idD ≠ 0) => aspiration_root c L hl fuel idD hd0 fuel v.alpha v.beta 1 s (by rw [hb]; exact hg)
+      have hasp := aspiration_spec c L hl fuel idD fuel v.alpha v.beta 1 s (by rw [hb]; exact hg) hps
+      have haroot := fun (hd0 : idD ≠ 0) => aspiration_root c L hl fuel idD hd0 fuel v.alpha v.beta 1 s (by rw [hb]; exact hg) hps
       generalize aspiration c L fuel idD fuel v.alpha v.beta 1 s = a at hasp haroot ⊢
       cases a with
       | aborted s' =>
@@ -402,6 +423,7 @@ theorem idLoop_null (c : Comp σ π) (L : Limits) (clock : Clock) {Good : Board 
           rw [hw]
           apply ih
           · exact hb'
+          · exact hf.mono.ps_ok hps
           · omega
           · push_cast at hn ⊢; omega
           · intro h2
@@ -420,13 +442,13 @@ theorem idLoop_null (c : Comp σ π) (L : Limits) (clock : Clock) {Good : Board 
             · exact Or.inr (Or.inr (Or.inl h))
 
 theorem go_null_final (c : Comp σ π) (L : Limits) (clock : Clock) {Good : Board → Prop} (hl : Laws c Good) (fuel : Nat)
-    (e : Engine σ) (b : Board) (hg : Good b) (nodes0 : Int) (hd : 1 ≤ L.depth)
+    (e : Engine σ) (b : Board) (hg : Good b) (hok : PsInv.ok e.ps) (nodes0 : Int) (hd : 1 ≤ L.depth)
     (hfuel : (go c L clock fuel e b nodes0).st.fuelOut = false)
     (hanom : (go c L clock fuel e b nodes0).st.anomaly = false)
     (hnull : (go c L clock fuel e b nodes0).move = 0) : Final c.keys b := by
   have h := idLoop_null c L clock hl fuel b hg hd 64 0
     { alpha := -Inf - 1, beta := Inf + 1, score := 0, move := 0, ponder := 0, reads := 0, ppolls := 0, out := [] }
-    (goInit L e b nodes0) rfl (Int.le_refl 0) (by decide) (fun h => absurd h (by decide)) hnull
+    (goInit L e b nodes0) rfl hok (Int.le_refl 0) (by decide) (fun h => absurd h (by decide)) hnull
   rcases h with h | h | h
   · exact h
   · exact absurd (show (go c L clock fuel e b nodes0).st.anomaly = true from h) (by rw [hanom]; decide)
